@@ -354,6 +354,41 @@ Section Pipeline.
         do m3 <- sort_resources o m2;                  (* applySortOrder *)
         Ok (map (fun r => strip_node (r_node r)) m3)   (* RemoveBuildAnnotations *)
     end.
+  (* ---------- the name-reference pass under an arbitrary map-iteration order ----------
+     nameReferenceTransformer.Transform ranges over a POINTER-KEYED map (filterMap): Go visits the referrers
+     in an unspecified order.  [nameref_transform] (Res/NameRef.v) visits them in list order; this is the
+     same pass with the visiting order as a parameter: positions of the resource list, each visit reading the
+     CURRENT map (candidates are live pointers) and replacing only the referrer it visits.  The filters
+     (determineFilters: the original ids) are computed before the first visit, as in Go. *)
+  Definition visit_core (rules : list nbr) (orgs : list resid) (m : list resource) (i : nat)
+    : res (option resource) :=
+    match nth_error m i, nth_error orgs i with
+    | Some r, Some org =>
+        match filters_for rules org with
+        | [] => Ok None
+        | fl =>
+            do flags <- referencable pipe_cs m r;
+            do r' <- apply_rules pipe_cs nonstr (firstn i m) (skipn (S i) m) flags fl r;
+            Ok (Some r')
+        end
+    | _, _ => Ok None
+    end.
+
+  Definition visit_at (rules : list nbr) (orgs : list resid) (m : list resource) (i : nat)
+    : res (list resource) :=
+    do o <- visit_core rules orgs m i;
+    Ok (match o with Some r' => replace_nth i r' m | None => m end).
+
+  Fixpoint visit_order (rules : list nbr) (orgs : list resid) (order : list nat) (m : list resource)
+    : res (list resource) :=
+    match order with
+    | [] => Ok m
+    | i :: t => do m' <- visit_at rules orgs m i; visit_order rules orgs t m'
+    end.
+
+  Definition nameref_in_order (rules : list nbr) (order : list nat) (m : list resource) : res (list resource) :=
+    do orgs <- mapM (org_id pipe_cs) m;
+    visit_order rules orgs order m.
 End Pipeline.
 
 (* ---------- the metamorphic transformations of the whole-build theorems ---------- *)
